@@ -12,7 +12,7 @@ from engine.runner import jnum, unj, active_regions
 ID = 'C14'
 ENGINE = 'PYSYM'
 TECHNIQUE = 'symbolic execution of SubsequenceSearch.align / kbest_matches / best_match (real heapq, lb_keogh and dtw.distance on symbolic series) for sequences of calls on one object; results compared by z3 with the exhaustive k-smallest oracle'
-BUDGET = {'quick': 420, 'thorough': 3000}
+BUDGET = {'quick': 420, 'thorough': 1800}
 SOURCES = ['src/dtaidistance/subsequence/subsequencesearch.py', 'src/dtaidistance/dtw.py']
 FUNCTIONS = ['SubsequenceSearch.__init__/align/kbest_matches/best_match', 'SSMatches, SSMatch.distance/idx', 'dtw.lb_keogh', 'dtw.distance (max_dist)']
 BOUNDS = {'quick': {'query length': '1..2', 'candidates': '1..2 of length 1..2 (3 candidates: single calls, query length 1)', 'k': '1..n+1, None', 'max_dist': 'None | symbolic', 'use_lb': 'T/F',
